@@ -77,10 +77,11 @@ def mc(ctx):
 
 # ------------------------------------------------------------------------------- generate / record / validate
 
-def gen(ctx, name, confs, sizes, maxops, maxday, simulate=None, fams=("",), burst=()):
+def gen(ctx, name, confs, sizes, maxops, maxday, simulate=None, fams=("",), burst=(), prefixes=((),)):
     K = dict(GConfigs="{" + ", ".join(tla_cfg(c) for c in confs) + "}", GSizes="{%s}" % ", ".join(map(str, sizes)),
              MaxOps=maxops, MaxDay=maxday, GFams="{%s}" % ", ".join('"%s"' % f for f in fams),
-             GBurst="{%s}" % ", ".join("<<%s>>" % ", ".join(map(str, b)) for b in burst))
+             GBurst="{%s}" % ", ".join("<<%s>>" % ", ".join(map(str, b)) for b in burst),
+             GPrefixes="{%s}" % ", ".join("<<%s>>" % ", ".join(map(str, b)) for b in prefixes))
     cfg = core.render_cfg(spec="GSpec", constants=K, invariants=["Emit"])
     r = ctx.tlc("RotateLogGen", cfg, constants=K, name=name, simulate=simulate, depth=(maxops + 4 if simulate else None),
                 timeout=1200, workers=(1 if simulate else 6))
@@ -179,8 +180,13 @@ def plans(ctx):
                    C("size", 64, days=2, maxBackups=1, pre=[73, 49, 47, 1], pregz="mixed"),
                    C("daily", days=2, gzip=True, pre=[96, 72, 48, 24], pregz="mixed"),
                    C("daily", days=2, pre=[96, 72, 48, 24], pregz="mixed")]
+    # [records that fill the file] ; one LARGE record that triggers a rotation ; then many small records:
+    # the second file, too, may grow beyond the maximum by at most one record
+    LS_PREFIX = [(32, 32, 40), (64, 33), (60, 64), (8, 65)]
+    ls_confs = [C("size", 64), C("size", 64, maxBackups=2, gzip=True, pre=[1])]
     P = []
     if ctx.quick:
+        P.append(dict(name="largesmall", confs=ls_confs, sizes=[8, 16], maxops=8, maxday=0, prefixes=LS_PREFIX))
         P.append(dict(name="burst", confs=burst_confs, sizes=[32, 65], maxops=3, maxday=1, burst=BURSTS))
         P.append(dict(name="mixed", confs=mixed_confs, sizes=[32, 65], maxops=4, maxday=2))
         P.append(dict(name="pubdaily", confs=[PB("daily", days=2, gzip=True, pre=[96, 24]), PB("daily")],
@@ -209,6 +215,8 @@ def plans(ctx):
         P.append(dict(name="realsize", confs=real_size, sizes=[32, 65], maxops=4, maxday=0, pick=48))
         P.append(dict(name="realmb", confs=real_mb, sizes=[16, MB // 2, MB, MB + 1], maxops=4, maxday=0, pick=32))
         P.append(dict(name="realdaily", confs=real_daily, sizes=[8, 40], maxops=4, maxday=1))
+        P.append(dict(name="largesmall", confs=ls_confs + [C("size", 64, days=2, maxBackups=1, pre=[49], precur=20)],
+                      sizes=[8, 16, 24], maxops=9, maxday=0, prefixes=LS_PREFIX + [(32, 40, 8, 8)]))
         P.append(dict(name="burst", confs=burst_confs, sizes=[32, 65], maxops=4, maxday=1, burst=BURSTS))
         P.append(dict(name="burst5", confs=[C("size", 64, maxBackups=5, gzip=True, pre=[200, 73, 49, 1], delim="_"),
                                             C("size", 64, gzip=True, days=2, pre=[73, 1]), C("size", 64, pre=[1], precur=20)],
@@ -233,7 +241,7 @@ def run(ctx):
     tot = {}
     for p in plans(ctx):
         cases = gen(ctx, p["name"], p["confs"], p["sizes"], p["maxops"], p["maxday"], simulate=p.get("simulate"),
-                    fams=p.get("fams", ("",)), burst=p.get("burst", ()))
+                    fams=p.get("fams", ("",)), burst=p.get("burst", ()), prefixes=p.get("prefixes", ((),)))
         if not cases:
             raise core.Infra("generator %s produced no history" % p["name"])
         if p.get("pick") and len(cases) > p["pick"]:
@@ -262,7 +270,11 @@ def run(ctx):
                     m += sum(1 for i in e["ids"] if i not in have)
         if q:
             ctx.notes["queued_at_close.%s" % p["name"]] = dict(queued=q, dropped=m)
-    # vacuity guards on what the drivers actually exercised
+    # vacuity guards on what the drivers actually exercised - only when the relation found nothing to complain
+    # about: a logger that does not rotate when it must is a size-bound disagreement, not a vacuous run
+    if ctx.disagreements:
+        ctx.notes["driver_totals"] = tot
+        return
     if tot.get("rotations_seen", 0) == 0:
         raise core.Infra("vacuous run: the real logger never rotated")
     if tot.get("daychanges", 0) == 0:
